@@ -7,6 +7,7 @@ import (
 	"strings"
 	"testing"
 
+	textwire "github.com/textwire/textwire/v2"
 	"pgregory.net/rapid"
 	"verif/lib/harness"
 	"verif/lib/reftext"
@@ -22,7 +23,14 @@ type textCase struct {
 	Kind string `json:"kind"` // plain | escaped | comment | splice
 }
 
+var c05Calls int
+
 func c05Run(c *harness.Check, cs textCase) (Result, string) {
+	// now and then a render that fails after having produced output goes first:
+	// nothing of it may show in what the next template renders to
+	if c05Calls++; c05Calls%5 == 0 {
+		harness.Safe(func() { textwire.EvaluateString("<p>leftover</p>@each(n in [1, 2])[{{ n }}]@end{{ zzMissing }}", nil) })
+	}
 	r := evalString(c, "json", mustJSON(cs), cs.Src, nil)
 	switch {
 	case r.Panic != nil:
